@@ -452,7 +452,10 @@ def uf_family(run, r, n):
         if extra:
             run.violation('property', '%s introduces hypotheses that no premise has: %s' % (rule, [sstr(h) for h in extra]),
                           dict(rule=rule, args=[sstr(a) for a in args], prevs=[sstr(p) for p in prevs], result=sstr(th)), key='C18:%s:hyps' % rule)
-        if rule in ('verit_bind', 'verit_sko_ex', 'verit_sko_forall'):
+        if rule == 'verit_let':
+            # the last premise is valid by congruence; the others are ordinary assumptions (with their hypotheses)
+            res = z3oracle.entails([p.prop for p in prevs[:-1]] + list(th.hyps), th.prop)
+        elif rule in ('verit_bind', 'verit_sko_ex', 'verit_sko_forall'):
             res = z3oracle.entails(list(th.hyps), th.prop)      # the premises offered to bind are valid sequents
         else:
             res = z3oracle.entails([p.prop for p in prevs], th.prop)
@@ -645,6 +648,19 @@ def uf_family(run, r, n):
                     if z3oracle.entails([Eq(x_, sk)], Eq(phi_of(x_), psi)) is not True:
                         continue
                     offer(rule, [Eq(Q(x_, phi_of(x_)), psi), {x_.name: sk}], [prem], 'guessed')
+
+    # ---- let: (let x = t in body) <--> rhs from premises t = s and  x = s |- body <--> rhs
+    from kernel.term import Let
+    for _ in range(max(3, n // 6)):
+        t_, s_ = xs[2], xs[3]
+        body_of = r.choice([lambda u: P1(u), lambda u: R2(u, xs[4]), lambda u: Eq(f1(u), xs[4])])
+        last = Thm(Eq(body_of(x_), body_of(s_)), Eq(x_, s_))
+        link = Thm(Eq(t_, s_), HYP)
+        for prevs_ in ([link, last], [last], [Thm(Eq(s_, t_), HYP), last], [Thm(Eq(t_, xs[4]), HYP), last]):
+            for rhs in (body_of(s_), body_of(x_)):
+                lastv = Thm(Eq(body_of(x_), rhs), Eq(x_, s_))
+                offer('verit_let', [Eq(Let(x_, t_, body_of(x_)), rhs)], prevs_[:-1] + [lastv], 'guessed')
+        offer('verit_let', [Eq(Let(x_, s_, body_of(x_)), body_of(s_))], [last], 'guessed')
 
     # ---- onepoint: (Q x. x = a ... ) against the body at a point; the context names the point
     for _ in range(max(3, n // 6)):
